@@ -143,3 +143,20 @@ package service
 //@   loop 0: invariant forall i int :: {txs[i]} 0 <= i && i < len(txs) ==> txs[i] != nil && inWindow(as(ptr_timestampRange, tsr).min, as(ptr_timestampRange, tsr).max, int64(tx_ts(txs[i])))
 //@   loop 0: invariant forall i int :: {txs[i]} 0 <= i && i < len(txs) ==> !tim_recent(tp.tim, tx_idstr(txs[i]))
 //@   loop 0: invariant forall i int :: {txs[i]} 0 <= i && i < len(txs) ==> ghost(pv_ok)[txs[i]]
+
+// ---------------------------------------------------------------------------
+// C15: the block's gathered fee is added to the treasury's CURRENT balance: the balance is read after
+// the transactions ran (nothing that may touch the ledger lies between the read and the write)
+// ---------------------------------------------------------------------------
+//@ property C15
+//@ func (t *transition) doExecute(alreadyValidated)
+//@   arith int
+//@   nosafety
+//@   modifies *
+//@   opt no-callee-pre
+//@   opt inline-none
+//@   opt go-ignore
+//@   requires t != nil
+//@   callpre SetBalance: !ghost(bal_stale) && big(v) == ghost(bal)[a] + big(gatheredFee)
+//@   loop 0: invariant true
+//@   loop 1: invariant true
